@@ -51,7 +51,7 @@ TsOK(v, x) == v = x \/ (cfgv.ed /\ v <= x)
 NoSub == [mode |-> "", t |-> "", paths |-> {}, uo |-> FALSE, user |-> "", started |-> FALSE, ended |-> FALSE,
           code |-> "", expect |-> "", syncs |-> 0, nall |-> 0, view |-> {}, cand |-> {}, got |-> {},
           w0 |-> 0, clean0 |-> FALSE, tdel |-> FALSE, stalled |-> FALSE, timeouts |-> FALSE,
-          settled |-> FALSE, offers |-> <<>>, deliv |-> <<>>, dels |-> 0, auxkeys |-> {}, dupsum |-> 0, regw |-> 0]
+          settled |-> FALSE, offers |-> <<>>, deliv |-> <<>>, dels |-> 0, auxkeys |-> {}, dupsum |-> 0, regw |-> 0, ending |-> FALSE]
 
 (* counting functions over leaf keys                                        *)
 Inc(f, k, n) == [x \in DOMAIN f \cup {k} |-> (IF x \in DOMAIN f THEN f[x] ELSE 0) + (IF x = k THEN n ELSE 0)]
@@ -121,11 +121,16 @@ OfferExpected(s, t, f) ==
 (* when the driver's hook behind the registration fired; 0 = not registered) *)
 OfferJudged(s, t) == /\ s.regw > 0 /\ ~s.ended /\ ~s.stalled /\ ~s.timeouts /\ s.mode = "stream"
                      /\ t \in DOMAIN cfgv.winv /\ cfgv.winv[t] > s.regw
+(* a stream that the client is ending, or whose target has been removed (it   *)
+(* is handed the target delete and ends), leaves the registry some time before *)
+(* its RPC returns: a notification it is no longer offered is not a fault      *)
+MissJudged(s, t) == OfferJudged(s, t) /\ ~s.ending /\ (s.t = "*" \/ s.t \notin cfgv.removed)
 TWret ==
     /\ St("wret")
     /\ (\A i \in 1..Len(Ev.fed) : Ev.fed[i].maxoff <= 1) = TRUE
     /\ (\A i \in 1..Len(Ev.fed) : \A n \in DOMAIN sub :
-            OfferJudged(sub[n], Ev.t) => ((n \in SeqToSet(Ev.fed[i].to)) <=> OfferExpected(sub[n], Ev.t, Ev.fed[i]))) = TRUE
+            /\ OfferJudged(sub[n], Ev.t) => ((n \in SeqToSet(Ev.fed[i].to)) => OfferExpected(sub[n], Ev.t, Ev.fed[i]))
+            /\ MissJudged(sub[n], Ev.t) => (OfferExpected(sub[n], Ev.t, Ev.fed[i]) => (n \in SeqToSet(Ev.fed[i].to)))) = TRUE
     /\ present' = present \cup {[t |-> Ev.t, p |-> Ev.fed[i].p] : i \in {j \in 1..Len(Ev.fed) : Ev.fed[j].k = "upd" /\ ~Ev.fed[j].aux}}
     /\ sub' = [n \in DOMAIN sub |-> IF sub[n].settled /\ ~sub[n].ended THEN AddOffers(sub[n], Ev.t, Ev.fed, 1) ELSE sub[n]]
     /\ UNCHANGED <<cfgv, vers, wcount, stable>>
@@ -358,7 +363,9 @@ TResume ==
     /\ St("resume")
     /\ sub' = [sub EXCEPT ![Ev.s].stalled = FALSE]
     /\ UNCHANGED <<cfgv, present, vers, wcount, stable>>
-TClientEnd == St("clientend") /\ UNCHANGED <<cfgv, present, vers, sub, wcount, stable>>
+TClientEnd == /\ St("clientend")
+              /\ sub' = IF Ev.s \in DOMAIN sub THEN [sub EXCEPT ![Ev.s].ending = TRUE] ELSE sub
+              /\ UNCHANGED <<cfgv, present, vers, wcount, stable>>
 TEnd ==
     /\ St("end")
     /\ (\A n \in DOMAIN sub : sub[n].started => sub[n].ended) = TRUE
